@@ -59,6 +59,12 @@ func (rt *dynamicImpersonatingRoundTripper) WrapRequest(req *http.Request) (*htt
 		return req, nil
 	}
 
+	if len(requestor.GetName()) == 0 {
+		// an empty Impersonate-User means "no impersonation" to the upstream,
+		// which would then act as the gateway's own identity
+		return nil, fmt.Errorf("refusing to proxy a request of a user without a name")
+	}
+
 	if klog.V(5) {
 		klog.Infof("Add impersonator headers:")
 		klog.Infof("     Name: %s", requestor.GetName())
